@@ -163,6 +163,64 @@ def grammar_rules(facts, res, tier, rule="R01-1"):
     return ex
 
 
+def r01_8(facts, res):
+    """Character data after reference expansion: an entity reference in *content* contributes its replacement text as it
+    stands.  White-space normalisation (normalize_ws) belongs to attribute values only, so on every call path from
+    XmlUnexpandedEntityReference::value (the expansion used for merged text) a call of normalize_ws has to be
+    control-dependent on a flag that value() does not set to a constant true."""
+    import staleidx
+    rule = "R01-8"
+    st = res.rule(rule, instances=0)
+    v = facts.fn("xml_info::XmlUnexpandedEntityReference::value")
+    nz = facts.fn("xml_info::normalize_ws")
+    reach, parent = facts.reachable([v["id"]])
+    if nz["id"] not in reach:
+        st["instances"] += 1
+        res.oblige(1, True)      # content expansion cannot reach the normalisation at all
+        return
+    # functions on the way that call normalize_ws directly
+    for fid in sorted(reach, key=lambda i: facts.fns[i]["path"] if i in facts.fns else ""):
+        f = facts.fns.get(fid)
+        if f is None or "body" not in f or f["crate"] != "xml_info":
+            continue
+        seq = staleidx._walk_parents(f["body"])
+        calls = [i for i, (n, _, _) in enumerate(seq) if n.get("k") == "Call" and str(n.get("f", {}).get("path", "")).endswith("xml_info::normalize_ws")]
+        if not calls:
+            continue
+        flags = {p.get("lid"): p.get("name") for p in f.get("params", []) if isinstance(p, dict) and p.get("ty") == "bool"}
+        for ci in calls:
+            st["instances"] += 1
+            guarded = False
+            i = ci
+            while i is not None:
+                n, pi, slot = seq[i]
+                if pi is not None:
+                    pn = seq[pi][0]
+                    cond = None
+                    if pn.get("k") == "If" and slot in ("then", "else"):
+                        cond = pn["cond"]
+                    if cond is None and "guard" in pn and slot == "body":
+                        cond = pn["guard"]
+                    if cond is not None and any(x.get("k") == "Path" and x.get("lid") in flags for x in walk(cond)):
+                        guarded = True
+                        break
+                i = pi
+            res.oblige(1, guarded)
+            if not guarded:
+                res.add(Finding(rule, f["path"] + "|normalize_ws", "%s normalises white space unconditionally and is used to expand entity references "
+                                "in element content (XmlUnexpandedEntityReference::value): a tab or line feed of the replacement text becomes a "
+                                "space in the character data" % f["path"], f["file"], seq[ci][0].get("ln"), {}))
+    # value() itself must not ask for normalisation with a constant
+    for n in walk(v["body"]):
+        if n.get("k") == "Call" and (n["f"].get("rid") or n["f"].get("id")) in reach:
+            for a in n.get("args", []):
+                if a.get("k") == "Lit" and a.get("v") is True:
+                    st["instances"] += 1
+                    res.oblige(1, False)
+                    res.add(Finding(rule, "value|constant", "XmlUnexpandedEntityReference::value asks for attribute-value normalisation with a constant "
+                                    "`true`: references in content are normalised too", v["file"], n.get("ln"), {}))
+
+
 def run(facts, tier):
     res = Result("C01")
     res.explanation = (
@@ -187,5 +245,6 @@ def run(facts, tier):
     reach, _ = facts.reachable([facts.fn("xml_info::attr_value_from_name")["id"]])
     guards.rule(facts, res, "R01-6", [facts.fns[x] for x in reach if x in facts.fns], want=("G3",), floor=1)
     c11.c11_7(facts, res, facts.fn("xml_info::<XmlElement as Element>::attributes"), rule="R01-7")
+    r01_8(facts, res)
     res.functions_analysed = res.extra["grammar"]["productions"]
     return res
